@@ -408,7 +408,7 @@ fn scenario(seed: u64, i: usize, kind: u8) -> Scenario {
 
 fn build(_ctx: &Ctx, tier: Tier, seed: u64) -> Vec<Job<'static>> {
     let n = match tier {
-        Tier::Quick => 6_000,
+        Tier::Quick => 20_000,
         Tier::Thorough => 400_000,
     };
     let labels = [
